@@ -272,6 +272,11 @@ impl RtpHeader {
                 "header extension payload must be 32-bit aligned",
             ));
         }
+        if let Some(ext) = &self.extension
+            && ext.data.len() / 4 > u16::MAX as usize
+        {
+            return Err(RtpError::InvalidHeader("header extension too long"));
+        }
         Ok(())
     }
 
